@@ -139,12 +139,13 @@ theorem sound_step (g : Grammar) (f : Nat) (ih : SoundAt g f) : SoundAt g (f + 1
               · next hc =>
                 simp only [List.mem_singleton] at h
                 subst h
+                obtain ⟨hfa, hc⟩ := hc
                 simp only [List.any_eq_true, List.isEmpty_iff] at hc
                 obtain ⟨rem', hrem', hnil⟩ := hc
                 subst hnil
                 obtain ⟨p, hcp, hm⟩ := ihM a _ _ [] hrem'
                 simp only [List.append_nil] at hcp
-                exact ⟨[_], rfl, .repAliasedUnit hal (by rw [hcp]; exact hm)⟩
+                exact ⟨[_], rfl, .repAliasedUnit hal hfa (by rw [hcp]; exact hm)⟩
               · simp at h
             · simp at h
           split at h
@@ -177,12 +178,13 @@ theorem sound_step (g : Grammar) (f : Nat) (ih : SoundAt g f) : SoundAt g (f + 1
             · next hc =>
               simp only [List.mem_singleton] at h
               subst h
+              obtain ⟨hfa, hc⟩ := hc
               simp only [List.any_eq_true, List.isEmpty_iff] at hc
               obtain ⟨rem', hrem', hnil⟩ := hc
               subst hnil
               obtain ⟨p, hcp, hm⟩ := ihM a _ _ [] hrem'
               simp only [List.append_nil] at hcp
-              exact ⟨[_], rfl, .rep1AliasedUnit hal (by rw [hcp]; exact hm)⟩
+              exact ⟨[_], rfl, .rep1AliasedUnit hal hfa (by rw [hcp]; exact hm)⟩
             · simp at h
           · simp at h
         split at h
@@ -247,13 +249,13 @@ theorem sound_step (g : Grammar) (f : Nat) (ih : SoundAt g f) : SoundAt g (f + 1
               · next hc =>
                 simp only [List.mem_singleton] at h
                 subst h
-                obtain ⟨hh, hc⟩ := hc
+                obtain ⟨hh, hfa, hc⟩ := hc
                 simp only [List.any_eq_true, List.isEmpty_iff] at hc
                 obtain ⟨rem', hrem', hnil⟩ := hc
                 subst hnil
                 obtain ⟨p, hcp, hm⟩ := ihM b _ _ [] hrem'
                 simp only [List.append_nil] at hcp
-                exact ⟨[_], rfl, .symAliasedUnit hb hh hk (by rw [hcp]; exact hm)⟩
+                exact ⟨[_], rfl, .symAliasedUnit hb hh hk hfa (by rw [hcp]; exact hm)⟩
               · simp at h
             · simp at h
           split at h
